@@ -910,3 +910,8 @@ srctie.wire(globals(), 'C07')
 from . import srctie
 srctie.wire_loops(globals(), 'C07')
 PROOF_MODULES = PROOF_MODULES + ['Compute.Lemmas.SrcLoops']
+
+# --- deep theorems (Rounding5: float-level bounds in the standard model, wired by the lead)
+PROOF_MODULES = PROOF_MODULES + [m for m in ['Compute.Lemmas.Rounding5', 'Compute.Props.Rounding5'] if m not in PROOF_MODULES]
+REQUIRED_THEOREMS = REQUIRED_THEOREMS + ['Cv.Rounding5.trapz_error', 'Cv.Rounding5.trapz_error_rel', 'Cv.Rounding5.trapz_node_error', 'Cv.Rounding5.trapezoid_error', 'Cv.Rounding5.trapezoidDx_error', 'Cv.Rounding5.quad5_error', 'Cv.Rounding5.quad5_error_rel', 'Cv.Rounding5.romberg00_error', 'Cv.Rounding5.rombergCol0Next_error', 'Cv.Rounding5.trapz_pert', 'Cv.Rounding5.quad5_pert', 'Cv.Rounding5.f64_trapz_note']
+NOT_PROVED = [("rounding of the integrand and the discretisation ('up to rounding' relative to the exact integral) is decided by the oracle; the accumulation error of trapz / trapezoid / quad5 / Romberg r[0][0] and each first-column step IS proved in the standard model (Props/Rounding5): computed = sum w_i f(x_i)(1+th_i) over the rule's computed nodes, |th_i| <= gamma_k with k = max(n+4,8) / (n-1)+5 / L+7 (=12) / 5 / max(3,2^(n-1)+1)+1, nodes within gamma_6(|a|+k|h|), and with a j-fold relatively accurate integrand gamma_(k+j) against sum w_i F(x_i); trusted link: IEEE binary64 obeys fl(a op b) = (a op b)(1+d), |d| <= 2^-53, barring overflow/underflow" if str(x).startswith('floating-point rounding (') else x) for x in NOT_PROVED]
